@@ -8,6 +8,11 @@ PROP = {'lean_props': ['Comrak.Props.C15'],
  'required_theorems': ['anchorLoop_some',
                        'anchorize_fresh',
                        'anchors_pairwise_distinct',
+                       'anchorizeMemo_refines',
+                       'anchorizeMemoAll_eq_spec',
+                       'anchors_pairwise_distinct_memo',
+                       'anchorize_memo_linear',
+                       'anchorize_old_quadratic',
                        'ix_is_1_to_n_in_first_ref_order',
                        'clean_document_intact',
                        'ref_nums_1_to_total_counterexample',
@@ -22,7 +27,10 @@ PROP = {'lean_props': ['Comrak.Props.C15'],
                        'unreferenced_omitted_partial',
                        'noRefInDropped_needed_for_ref_nums',
                        'noNestedDefs_needed'],
- 'strength': 'anchors: full (every normalisation table, every issued set, every list of heading texts). Footnotes: numbering in '
+ 'strength': 'anchors: full (every normalisation table, every issued set, every list of heading texts); the anchor model tied to the real '
+             'Anchorizer is now the memoised code (HashMap<String, usize>, repaired in /repo commit 70a0ef9), proved to refine the set-based '
+             'specification (anchorizeMemo_refines, anchorizeMemoAll_eq_spec) with at most 2n probes for n headings (anchorize_memo_linear) '
+             'where the set-based loop needs n(n+1)/2 on n equal headings (anchorize_old_quadratic). Footnotes: numbering in '
              'first-reference order proved for every tree and label normaliser; "references point to a rendered definition" proved for every '
              'tree with leaf references (refs_point_to_rendered_def_partial: no other hypothesis, in particular no idempotence of the '
              'normaliser); "rendered once", "ref_nums 1..total" and "unreferenced omitted" proved for every tree and normaliser under explicit '
@@ -43,7 +51,13 @@ PROP = {'lean_props': ['Comrak.Props.C15'],
 TEXT = {'text': 'Proof + correspondence. Anchors: Lean proves for anchorLoop/anchorize (the model of src/html/anchorizer.rs used by the renderer model) '
          'that the decimal suffixes are injective, that issued.length+1 candidates always contain an unused one (pigeonhole), that the returned '
          'anchor is the first unused candidate, is not in the issued set and is added to it, and hence that the anchors issued for any list of '
-         'heading texts under any normalisation table are pairwise distinct. Footnotes: processFootnotes (Comrak/Footnotes.lean) models the '
+         'heading texts under any normalisation table are pairwise distinct. The code as it is (since /repo commit 70a0ef9 the Anchorizer keeps a '
+         'HashMap from every issued anchor to the first suffix not yet tried for it) is modelled statement by statement as anchorizeMemo; Lean '
+         'proves the invariant MemoInv (keys = issued anchors; below the counter stored with a key every candidate is a key), that from related '
+         'states anchorizeMemo returns the anchor of the set-based anchorize and re-establishes the invariant, hence that one fresh Anchorizer '
+         'issues exactly the anchors of the specification for every list of headings (so distinctness transfers), that the contains_key probes '
+         'over n headings are at most 2n (potential = sum of the stored counters; a suffixed anchor determines its base and suffix), and that '
+         'the set-based loop needs n(n+1)/2 probes on n equal headings. Footnotes: processFootnotes (Comrak/Footnotes.lean) models the '
          "parser's pass (definition map keyed by folded label with last-one-wins, numbering walk over the whole tree including definitions, "
          'removal of outermost definitions, re-attachment in ix order with rewritten names and counts) with the label normaliser as a parameter; '
          'Lean proves that ix values are issued 1,2,3,.. in order of first reference for every tree; by factoring the walk through the list of '
@@ -54,13 +68,13 @@ TEXT = {'text': 'Proof + correspondence. Anchors: Lean proves for anchorLoop/anc
          'hypothesis is shown necessary by a counterexample theorem. It refutes by decide-witnesses on the model '
          'the clauses the pass really violates (reference inside a dropped definition, X / X-2 names, definition nested in a definition, '
          'non-idempotent label normalisation), each re-established on the real code and listed in known_findings.json. Tie to the code on every '
-         'run: real Anchorizer = anchorizeAll on all sequences of length <= 3 over 9 colliding texts and on random longer ones; the real '
+         'run: real Anchorizer = anchorizeMemoAll (the memoised model, proved equal to anchorizeAll) on all sequences of length <= 3 over 9 colliding texts and on random longer ones; the real '
          'tree after process_footnotes = processFootnotes(real tree before it), node for node, on generated footnote documents (hook observer); '
          'whole documents byte-equal to the renderer model with header_ids and footnotes on. Search: the id/href graph of the real HTML (Lean '
          'lexHtml) is checked against every clause of the property.',
  'note': 'Trusted: Lean kernel + standard axioms; harness/driver; hook observer; label-normaliser parameter. The tree-level footnote clauses are general '
          'theorems about the model outside the listed defect classes; the HTML-level back-link/id clauses rest on the node-for-node model '
          'correspondence plus output oracles, not on a general theorem.',
- 'technique': 'Lean 4 theorems (pigeonhole over injective decimal suffixes; mutual induction over the numbering walk, run/emit factorisation over the resolvable keys, permutation argument for strip + re-attach; decide witnesses) + '
+ 'technique': 'Lean 4 theorems (pigeonhole over injective decimal suffixes; refinement of the set-based anchorizer by the memoised one with an amortised probe count; mutual induction over the numbering walk, run/emit factorisation over the resolvable keys, permutation argument for strip + re-attach; decide witnesses) + '
               'differential correspondence of the pass through a cfg(comrak_verif) observer + id/href graph oracles on the real HTML',
  'design_ref': 'DESIGN.md section 7, C15'}
